@@ -97,6 +97,16 @@ func genC08() {
 		{"pkg/app/fs.go", "fsHandler", "openFSFile", "openFSFile"},
 		{"pkg/app/fs.go", "fsHandler", "compressAndOpenFSFile", "compressAndOpenFSFile"},
 		{"pkg/app/fs.go", "fsHandler", "compressFileNolock", "compressFileNolock"},
+		// cache and reader reference counts (Hertz/Model/FsCache.lean)
+		{"pkg/app/fs.go", "fsFile", "NewReader", "newReader"},
+		{"pkg/app/fs.go", "fsFile", "bigFileReader", "fsFileBigFileReader"},
+		{"pkg/app/fs.go", "fsFile", "smallFileReader", "fsFileSmallFileReader"},
+		{"pkg/app/fs.go", "fsFile", "decReadersCount", "decReadersCount"},
+		{"pkg/app/fs.go", "fsFile", "Release", "release"},
+		{"pkg/app/fs.go", "fsSmallFileReader", "Close", "smallClose"},
+		{"pkg/app/fs.go", "bigFileReader", "Close", "bigClose"},
+		{"pkg/app/fs.go", "fsHandler", "cleanCache", "cleanCache"},
+		{"pkg/app/fs.go", "", "cleanCacheNolock", "cleanCacheNolock"},
 	} {
 		fset, f := parseFile(w.file)
 		fd := findFuncC08(f, w.recv, w.fn)
@@ -114,6 +124,45 @@ func genC08() {
 			fmt.Fprintf(&b, "  %s%s\n", leanString(s), sep)
 		}
 		b.WriteString("]\n\n")
+	}
+	// every statement of pkg/app/fs.go that touches a reference count, a cache map or releases a file, per function
+	// (all functions of the file: a NEW site anywhere changes the list)
+	{
+		fset, f := parseFile("pkg/app/fs.go")
+		b.WriteString("/-- the statements of `pkg/app/fs.go` that touch `readersCount`, call `decReadersCount` / `Release`, or\nwrite a cache map, per function, in source order -/\ndef rcSites : List (String × List String) := [\n")
+		first := true
+		for _, d := range f.Decls {
+			fd, ok := d.(*ast.FuncDecl)
+			if !ok || fd.Body == nil {
+				continue
+			}
+			name := fd.Name.Name
+			if fd.Recv != nil && len(fd.Recv.List) == 1 {
+				t := fd.Recv.List[0].Type
+				if st, ok := t.(*ast.StarExpr); ok {
+					t = st.X
+				}
+				if id, ok := t.(*ast.Ident); ok {
+					name = id.Name + "." + name
+				}
+			}
+			var sites []string
+			for _, l := range skeleton(fset, fd) {
+				if strings.Contains(l, "readersCount") || strings.Contains(l, "decReadersCount(") || strings.Contains(l, ".Release()") ||
+					strings.Contains(l, "fileCache[") && strings.Contains(l, "] =") || strings.Contains(l, "delete(cache") {
+					sites = append(sites, leanString(l))
+				}
+			}
+			if len(sites) == 0 {
+				continue
+			}
+			if !first {
+				b.WriteString(",\n")
+			}
+			first = false
+			fmt.Fprintf(&b, "  (%s, [%s])", leanString(name), strings.Join(sites, ", "))
+		}
+		b.WriteString("\n]\n\n")
 	}
 	b.WriteString("end Hertz.Gen.Fs\n")
 	write("Fs.lean", b.String())
